@@ -1413,7 +1413,16 @@ class PGPKey(Armorable, ParentRef, PGPObject):
             if sig.key_expiration is not None:
                 expires = sig.key_expiration
 
-        if expires is not None:
+        if not self.is_primary:
+            # a subkey has no user ids: its validity period is the one in its newest binding signature
+            # (the signatures of a key are kept in order of creation)
+            for sig in self._signatures:
+                if sig.type == SignatureType.Subkey_Binding and \
+                        (self.parent is None or sig.signer == self.parent.fingerprint.keyid):
+                    expires = sig.key_expiration
+
+        # a key expiration time of zero means that the key never expires, as does the absence of one
+        if expires:
             return self.created + expires
 
         return None
